@@ -97,8 +97,11 @@ def handle (st : St) (seq : String) (f : List String) : St × List String :=
       let mRet := kind != "panic"
       let mAtomic := !(r.1.any fun x => x ≥ 1000)
       let mRemaining := r.2.1 == none
-      let d := if ret mRet = returned && b01 mAtomic = atomic && b01 mRemaining = remaining then [] else
-        [s!"DIFF\t{seq}\t{scen} {blocker}: unwrapped loop n={n} i={i} {kind} wrote={wrote} model={ret mRet},{b01 mAtomic},{b01 mRemaining} impl={returned},{atomic},{remaining}"]
+      -- the source table says every borrow step is a wrapped unit (`units_of_work_wrapped`); the harness writes this
+      -- line only when it saw the borrows run OUTSIDE units, so the line is a divergence by itself; the unwrapped-loop
+      -- model says what to expect then
+      let agree := ret mRet = returned && b01 mAtomic = atomic && b01 mRemaining = remaining
+      let d := [s!"DIFF\t{seq}\t{scen} {blocker}: model=borrow steps are wrapped units impl=unwrapped loop n={n} first failure at {i} ({kind}, wrote={wrote}): returned,atomic,remaining={returned},{atomic},{remaining}; unwrapped-loop model {ret mRet},{b01 mAtomic},{b01 mRemaining} agrees={agree}"]
       (st, d ++ monIf seq (returned != "ok" && reach = "1") "no_panic" ++ monIf seq (atomic = "0" && reach = "1") "unit_atomic" ++
         monIf seq (remaining = "0" && reach = "1") "remaining_run")
     | _, _ => (st, [s!"BAD\t{seq}\tuloop line"])
@@ -106,12 +109,10 @@ def handle (st : St) (seq : String) (f : List String) : St × List String :=
     -- per-item oracle of the liquidation sweeps: a step that runs as a wrapped unit cannot be half-applied
     match parseNat? halfV, parseNat? halfB with
     | some hv, some hb =>
-      -- the model's reading of the source (Props/C15 `units_of_work_wrapped`): vault steps of both generations and
-      -- first-generation borrow steps are wrapped units, hence atomic; second-generation borrow steps are atomic
-      -- only where the run showed them as units (D6: on the pinned tree they run unwrapped and may leak)
-      let gen2 := blocker.startsWith "liquidationsV2"
-      let d := (if hv > 0 then [s!"DIFF\t{seq}\t{scen} {blocker}: model=vault steps atomic (wrapped={vaultW}) impl={hv} half-applied {rest}"] else []) ++
-               (if hb > 0 && (!gen2 || borrowW = "1") then [s!"DIFF\t{seq}\t{scen} {blocker}: model=borrow steps atomic impl={hb} half-applied {rest}"] else [])
+      -- the model's reading of the source (Props/C15 `units_of_work_wrapped`): vault and borrow steps of both
+      -- generations are wrapped units, hence atomic
+      let d := (if hv > 0 then [s!"DIFF\t{seq}\t{scen} {blocker}: model=vault steps atomic (seen wrapped={vaultW}) impl={hv} half-applied {rest}"] else []) ++
+               (if hb > 0 then [s!"DIFF\t{seq}\t{scen} {blocker}: model=borrow steps atomic (seen wrapped={borrowW}) impl={hb} half-applied {rest}"] else [])
       (st, d ++ monIf seq (reach = "1" && hv + hb > 0) "unit_atomic")
     | _, _ => (st, [s!"BAD\t{seq}\tpost line"])
   | _ => (st, [s!"BAD\t{seq}\tunknown hooks line"])
